@@ -11,8 +11,10 @@ proportional components, alias names) are checked on the same cases.
 """
 import contextlib
 import io
+import itertools
 import math
 import warnings
+from fractions import Fraction
 
 import numpy as np
 
@@ -96,13 +98,23 @@ FFT_REQ = {"nopad_ortho": lambda: {"n": None, "norm": "ortho"},      # a normali
 
 # ---------------------------------------------------------------------------
 
+_SIG_CACHE = {}
+
+
 def _sig(name, L, scale):
     """Named signal; 'a+b' is a + 0.1*b (line spectra get a noise floor: a spectrum that is
     exactly zero between its lines makes every ratio 0/0-like and ill-conditioned)."""
     if "+" in name:
         a, b = name.split("+")
-        return A.sig_array(a, L, scale) + 0.1 * A.sig_array(b, L, scale)
-    return A.sig_array(name, L, scale)
+        return _sig(a, L, scale) + 0.1 * _sig(b, L, scale)
+    if L <= 4096:
+        return A.sig_array(name, L, scale)
+    key = (name, L, scale)          # long signals are generated sample by sample in Python: keep a few
+    if key not in _SIG_CACHE:
+        if len(_SIG_CACHE) > 12:
+            _SIG_CACHE.clear()
+        _SIG_CACHE[key] = A.sig_array(name, L, scale)
+    return _SIG_CACHE[key].copy()
 
 
 def make_records(w, nwin=1, factors=(1.0, 1.0, 1.0), proportional=None, lengths=None):
@@ -165,6 +177,7 @@ def run_process(recs, settings):
 
 _W_CACHE = {}
 _DFT_CACHE = {}
+_TAPER_CACHE = {}      # reference Tukey windows by (length, width)
 COND = 1e-6     # smoothed spectra below COND * (largest raw amplitude) are rounding noise: not compared
 
 
@@ -192,10 +205,16 @@ class Ref:
 
     def _taper(self, L):
         if L not in self._tapers:
-            self._tapers[L] = np.array(RT.tukey(L, self.tukey))
+            key = (L, self.tukey)
+            if key not in _TAPER_CACHE:
+                if len(_TAPER_CACHE) > 8:
+                    _TAPER_CACHE.clear()
+                _TAPER_CACHE[key] = np.array(RT.tukey(L, self.tukey))
+            self._tapers[L] = _TAPER_CACHE[key]
         return self._tapers[L]
 
     bins = None     # when set: only these DFT bins are evaluated (long windows), others are 0
+    ends = None     # set by smooth(): centres with a DFT bin exactly on an end of their window
 
     def spec(self, x):
         if self.n < self.L:
@@ -219,19 +238,72 @@ class Ref:
         if key not in _W_CACHE:
             if len(_W_CACHE) > 64:
                 _W_CACHE.clear()
-            Wm, knife = RK.matrix(op, list(self.freq), list(fcs), bw)
-            _W_CACHE[key] = (np.asarray(Wm), np.asarray(knife, dtype=bool))
-        Wm, knife = _W_CACHE[key]
+            _W_CACHE[key] = kernel_matrix(op, bw, fcs, self.freq, self.n, self.dt)
+        Wm, knife, ends = _W_CACHE[key]
+        self.ends = ends        # centres with a DFT bin EXACTLY on an end of their (closed) window
         return np.asarray(rows) @ Wm.T, knife
 
 
+def _is_pow2(q):
+    q = Fraction(q)
+    if q <= 0:
+        return False
+    a, b = q.numerator, q.denominator
+    return (a == 1 or b == 1) and (a & (a - 1)) == 0 and (b & (b - 1)) == 0
+
+
+def kernel_matrix(op, bw, fcs, freq, n, dt):
+    """Reference kernel matrix W[fc, f] on the DFT grid, the mask of knife-edge centres and the
+    mask of centres that have a DFT bin EXACTLY on an end of their window.
+
+    The rows are ``RK.row_info`` rows.  (a) Speed: row_info is evaluated on the samples within
+    (1 + 1e-6) x the support only (every other sample has weight 0 in any admissible row; the
+    1e-9 knife-edge band lies well inside), which gives the same row as the whole grid, sample
+    for sample.  (b) Window ends: a sample whose distance from the centre equals the half-width
+    EXACTLY (rational arithmetic on the doubles) is inside the closed window - not a knife edge -
+    provided the DFT frequencies themselves are exact (n*dt a power of two: every k/(n*dt) is a
+    double whichever way it is computed); on any other grid such a centre stays knife-edge."""
+    freq = np.asarray(freq, dtype=float)
+    fl = freq.tolist()
+    nf = len(fl)
+    W = np.zeros((len(fcs), nf))
+    knife = np.zeros(len(fcs), dtype=bool)
+    ends = np.zeros(len(fcs), dtype=bool)
+    grid_exact = _is_pow2(Fraction(int(n)) * Fraction(float(dt)))
+    for c, fc in enumerate(fcs):
+        fc = float(fc)
+        if op == "savitzky_and_golay" or fc < RK.F_MIN:
+            info = RK.row_info(op, fl, fc, bw)
+            idx = np.arange(nf)
+        else:
+            lim = RK.half_width(op, float(bw))
+            with np.errstate(all="ignore"):
+                if op in ("konno_and_ohmachi", "log_rectangular", "log_triangular"):
+                    d = np.abs(np.log10(np.where(freq > 0, freq, 1.0) / fc))
+                    slack = 1e-6 * max(lim, 1.0)
+                else:
+                    d = np.abs(freq - fc)
+                    slack = 1e-6 * np.maximum(np.maximum(lim, np.abs(freq)), abs(fc))
+            idx = np.nonzero((freq >= RK.F_MIN) & (d <= lim + slack))[0]
+            info = RK.row_info(op, [fl[i] for i in idx], fc, bw, closed_ends=True)
+        W[c, idx] = info["alternatives"][0]
+        knife[c] = len(info["alternatives"]) > 1
+        if info.get("ends"):
+            if grid_exact:
+                ends[c] = True
+            else:
+                knife[c] = True
+    return W, knife, ends
+
+
 def reference(kind, cfg, fcs, recs_arrays, dt, n):
-    """-> (curves 2-D, mask of centres not to compare (knife-edge or ill-conditioned), positive flag)"""
+    """-> (curves 2-D, mask of centres not to compare (knife-edge or ill-conditioned), positive flag,
+    mask of centres with a DFT bin exactly on an end of their smoothing window)"""
     op, bw = cfg["smoothing"]
     r = Ref(recs_arrays, dt, cfg["tukey"], n)
-    if len(recs_arrays[0][0]) > 4096:
-        # long window: evaluate only the DFT bins that carry kernel weight
-        Wm, _ = r.smooth(op, bw, fcs, np.zeros((1, n // 2 + 1)))[0], None
+    if r.L > 4096:
+        # long window (the longest of the call decides): evaluate only the DFT bins that carry kernel weight
+        r.smooth(op, bw, fcs, np.zeros((1, n // 2 + 1)))
         Wfull = _W_CACHE[(op, bw, tuple(fcs), n, dt)][0]
         r.bins = np.nonzero(np.abs(Wfull).sum(axis=0) > 0)[0]
     k = kind["kind"]
@@ -262,7 +334,7 @@ def reference(kind, cfg, fcs, recs_arrays, dt, n):
                 curves.append(hp / sv[0])
             bad = kn | (np.abs(sh).min(axis=0) < COND * r.max_raw) | (np.abs(sv[0]) < COND * r.max_raw)
             skip = bad if skip is None else (skip | bad)
-        return np.array(curves), skip, pos
+        return np.array(curves), skip, pos, r.ends
     elif k == "diffuse":
         ph = sum(r.spec(ns) ** 2 + r.spec(ew) ** 2 for ns, ew, vt in recs_arrays)
         pv = sum(r.spec(vt) ** 2 for ns, ew, vt in recs_arrays)
@@ -270,13 +342,13 @@ def reference(kind, cfg, fcs, recs_arrays, dt, n):
         pos = bool(np.all(s > 0))
         bad = kn | (np.abs(s).min(axis=0) < (COND * r.max_raw) ** 2)
         with np.errstate(all="ignore"):
-            return np.sqrt(s[0] / s[1])[None, :], bad, pos
+            return np.sqrt(s[0] / s[1])[None, :], bad, pos, r.ends
     sh, kn = r.smooth(op, bw, fcs, rows_h)
     sv, _ = r.smooth(op, bw, fcs, rows_v)
     pos = bool(np.all(sh > 0)) and bool(np.all(sv > 0))
     bad = kn | (np.abs(sh).min(axis=0) < COND * r.max_raw) | (np.abs(sv).min(axis=0) < COND * r.max_raw)
     with np.errstate(all="ignore"):
-        return sh / sv, bad, pos
+        return sh / sv, bad, pos, r.ends
 
 
 def signal_condition(sig, dt, cfg, fcs, n):
@@ -313,13 +385,22 @@ def roots(tier, seed):
     out = []
     ks = kinds(tier)
     wins = WINDOWS if tier == "thorough" else WINDOWS[:4]
+    heavy = []
     for wi, w in enumerate(wins):
         for kind in ks:
-            out.append(dict(window=list(w), kind=kind, wi=wi))
+            if kind["kind"] == "azimuthal":
+                # every azimuth is a whole 32768-point processing run: such a root is dealt out in `parts`
+                # (its configurations i, i+k, i+2k, ...) and placed first, so that the workers end together
+                k = max(1, len(AZ_SETS[kind["azset"]]) // 2)
+                heavy += [(-len(AZ_SETS[kind["azset"]]), dict(window=list(w), kind=kind, wi=wi, part=[i, k]))
+                          for i in range(k)]
+            else:
+                out.append(dict(window=list(w), kind=kind, wi=wi))
     for wi, w in enumerate(wins[:2] if tier == "quick" else wins[:4]):
         for kind in HEAVY_KINDS:
             out.append(dict(window=list(w), kind=kind, wi=wi, unequal=True))
-    return _long_roots(tier) + out
+    heavy.sort(key=lambda t: t[0])
+    return [r for _, r in heavy] + _long_roots(tier) + _ongrid_roots(tier) + out
 
 
 LONG_LENGTHS = [32768, 32769, 40000]
@@ -327,11 +408,32 @@ LONG_KINDS = [dict(kind="fd", method="geometric_mean"), dict(kind="single", meth
               dict(kind="rotdpp", percentile=50, azset="two"), dict(kind="diffuse", nwin=2)]
 
 
+# windows of different length in ONE call, at least one of them longer than 2**15 samples: every ordered pair of
+# distinct lengths from {short, 2**15, long} and the three lengths together with the longest first / in the
+# middle / last (quick) or in all six orders (thorough)
+LONG_UNEQUAL_LENGTHS = [500, 32768, 40000]
+
+
+def _long_unequal_sequences(tier):
+    a = LONG_UNEQUAL_LENGTHS
+    seqs = [[x, y] for x in a for y in a if x != y]
+    if tier == "thorough":
+        seqs += [list(q) for q in itertools.permutations(a)]
+    else:
+        seqs += [[a[2], a[1], a[0]], [a[0], a[2], a[1]], [a[1], a[0], a[2]]]
+    return seqs
+
+
 def _long_roots(tier):
     out = []
+    lkinds = LONG_KINDS if tier == "thorough" else LONG_KINDS[:2] + LONG_KINDS[3:]
     for L in LONG_LENGTHS:
-        for kind in (LONG_KINDS if tier == "thorough" else LONG_KINDS[:2] + LONG_KINDS[3:]):
+        for kind in lkinds:
             out.append(dict(window=["noise1", "noise2", "noise3", L, 0.01, 1.0], kind=kind, wi=-1, long=True))
+    for lengths in _long_unequal_sequences(tier):
+        for kind in lkinds:
+            out.append(dict(window=["noise1", "noise2", "noise3", max(lengths), 0.01, 1.0], kind=kind, wi=-1,
+                            long=True, lengths=lengths))
     return out
 
 
@@ -346,9 +448,78 @@ def _run_long(root, ctx):
         n_guess = L if fft == "nopad" else 65536
         df = fs / n_guess
         cfg = dict(fft=fft, smoothing=["linear_rectangular", 6 * df], tukey=0.1, fcs="long")
-        fcs = [0.0501 * fs, 0.2003 * fs, 0.4007 * fs]
+        fcs = [0.05013 * fs, 0.20031 * fs, 0.40073 * fs]     # off the DFT grid of every FFT length used here
         ctx.count("states")
-        _one_case(ctx, root, kind, tag, w, kind.get("nwin", 1), cfg, fcs, metamorphic=False)
+        lengths = root.get("lengths")
+        if lengths is None:
+            _one_case(ctx, root, kind, tag, w, kind.get("nwin", 1), cfg, fcs, metamorphic=False)
+        else:
+            ctx.count("long_unequal_length_cases")
+            _one_case(ctx, root, dict(kind, nwin=len(lengths)), tag, w, len(lengths), cfg, fcs, False,
+                      lengths=list(lengths))
+
+
+# ---------------------------------------------------------------------------
+# DFT bins EXACTLY on the ends of smoothing windows.  With a binary-friendly time step (dt = 2**-k) and a
+# power-of-two FFT length every DFT frequency is an exact double; centre frequencies and bandwidths on that grid
+# then put bins exactly on fc -/+ half-width.  The window of every operator is closed (ref/kernels.py: limits
+# inclusive), so these bins belong to the average; on the decimal time steps of WINDOWS no such tie ever occurs.
+
+ONGRID_WINDOWS = [     # (ns, ew, vt, L, dt, scale): no-padding spacing df = 1 Hz and 2 Hz
+    ("noise1", "noise2", "noise3", 64, 1.0 / 64, 1.0),
+    ("two_sines+noise4", "noise2", "ramp", 64, 1.0 / 128, 1e3),
+]
+ONGRID_KINDS_QUICK = [dict(kind="fd", method="geometric_mean"), dict(kind="fd", method="squared_average"),
+                      dict(kind="single", method="single_azimuth", azimuth=30),
+                      dict(kind="rotdpp", percentile=50, azset="four"), dict(kind="azimuthal", azset="two"),
+                      dict(kind="diffuse", nwin=2)]
+
+
+def ongrid_space(L, dt):
+    df = 1.0 / (L * dt)
+    ops = [("linear_rectangular", 2 * df), ("linear_rectangular", 6 * df),   # ends on bins for centres on bins
+           ("linear_rectangular", 3 * df),                                   # ... for centres midway between bins
+           ("linear_rectangular", 0.5),     # narrower than the no-padding spacing: ends are bins of padded grids only
+           ("linear_triangular", 6 * df),
+           ("log_rectangular", 2.0),        # half-width one whole decade: ends fc/10 and 10 fc
+           ("log_rectangular", 0.2),
+           ("log_triangular", 2.0),
+           ("konno_and_ohmachi", 3.0),      # support 10**(3/b) = one whole decade
+           ("konno_and_ohmachi", 40.0),
+           ("parzen", 7.13 / (3 * df)),
+           ("savitzky_and_golay", 5)]
+    fcs = {"bins": [2.0, 4.0, 20.0, 30.0],                      # 2 -> 20, 4 -> 40 (dt = 1/128), 20 -> 2 are decades
+           "halfbins": [(k + 0.5) * df for k in (2, 5, 11)],
+           "quarters": [2.25, 4.5, 12.0, 1.0]}                   # on the padded grids only
+    return [list(o) for o in ops], fcs
+
+
+def _ongrid_roots(tier):
+    out = []
+    for wi, w in enumerate(ONGRID_WINDOWS):
+        ops, _ = ongrid_space(w[3], w[4])
+        for op in ops:
+            out.append(dict(window=list(w), ongrid=True, smoothing=op, wi=wi,
+                            kind=dict(kind="ongrid", operator=op[0])))
+    return out
+
+
+def _run_ongrid(root, ctx, tier):
+    """root = (binary-friendly window, operator/bandwidth); every processing kind x centre-frequency set x FFT
+    request under it (one kernel matrix serves all kinds)."""
+    w = tuple(root["window"])
+    _, fcs_sets = ongrid_space(w[3], w[4])
+    ffts = ["nopad", "default"] + (["n65536"] if tier == "thorough" else [])
+    for kind in (HEAVY_KINDS if tier == "thorough" else ONGRID_KINDS_QUICK):
+        tag = _kind_tag(kind)
+        for fcs_name in fcs_sets:
+            for fft in ffts:
+                for tukey in ((0.1, 0.0) if tier == "thorough" else (0.1,)):
+                    cfg = dict(fft=fft, smoothing=list(root["smoothing"]), tukey=tukey, fcs=fcs_name)
+                    ctx.count("states")
+                    ctx.count("ongrid_cases")
+                    _one_case(ctx, root, kind, tag, w, kind.get("nwin", 1), cfg, fcs_sets[fcs_name], False)
+    ctx.nontrivial_case(("ongrid", root["wi"], repr(root["smoothing"])))
 
 
 def _kind_tag(kind):
@@ -370,7 +541,10 @@ def _ndev(space, cfg):
 def run_root(root, ctx, tier):
     if root.get("long"):
         _run_long(root, ctx)
-        ctx.nontrivial_case(("long", root["window"][3], repr(root["kind"])))
+        ctx.nontrivial_case(("long", repr(root.get("lengths", root["window"][3])), repr(root["kind"])))
+        return
+    if root.get("ongrid"):
+        _run_ongrid(root, ctx, tier)
         return
     w = tuple(root["window"])
     kind = root["kind"]
@@ -405,11 +579,14 @@ def run_root(root, ctx, tier):
             cases.append((c, False))
         for c in product.deviations(dict(padded, fft=["n65536", "n16"]), 0):
             cases.append((c, False))
-    seen = set()
+    seen, distinct = set(), []
     for cfg, meta in cases:
-        if repr(cfg) in seen:
-            continue
-        seen.add(repr(cfg))
+        if repr(cfg) not in seen:
+            seen.add(repr(cfg))
+            distinct.append((cfg, meta))
+    if root.get("part"):
+        distinct = distinct[root["part"][0]::root["part"][1]]
+    for cfg, meta in distinct:
         fcs = fcs_sets[cfg["fcs"]]
         ctx.count("states")
         _one_case(ctx, root, kind, tag, w, nwin, cfg, fcs, meta)
@@ -437,8 +614,9 @@ def _one_case(ctx, root, kind, tag, w, nwin, cfg, fcs, metamorphic=True, lengths
         return
     n = n_after if n_after is not None and n_after >= L else max(L, 32768)
     try:
-        ref, knife, positive = reference(kind, cfg, fcs, arrays, dt, n)
+        ref, knife, positive, ends = reference(kind, cfg, fcs, arrays, dt, n)
         knife = np.asarray(knife, dtype=bool)
+        ends = np.zeros(len(fcs), dtype=bool) if ends is None else np.asarray(ends, dtype=bool)
     except ZeroDivisionError:
         ctx.count("skipped_reference_undefined")
         return
@@ -468,11 +646,19 @@ def _one_case(ctx, root, kind, tag, w, nwin, cfg, fcs, metamorphic=True, lengths
         ctx.count("centres_not_compared_knife_or_illconditioned", int(knife.sum()))
     if not ok_cols.any():
         return
+    if (ends & ok_cols).any():
+        ctx.count("centres_with_bin_exactly_on_window_end:" + cfg["smoothing"][0], int((ends & ok_cols).sum()))
     if not close(amp[:, ok_cols], ref[:, ok_cols], rtol=RTOL):
-        ctx.violation(f"C01:{tag}:ratio:{cfg['smoothing'][0]}:{'nopad' if cfg['fft'].startswith('nopad') else 'padded'}",
-                      root, detail=dict(detail, fft_n=n), expected=ref.tolist(), observed=amp.tolist(),
-                      explanation="curve differs from smoothed combined-horizontal / smoothed vertical amplitude "
-                                  "spectrum of the tapered zero-padded window")
+        key = f"C01:{tag}:ratio:{cfg['smoothing'][0]}:{'nopad' if cfg['fft'].startswith('nopad') else 'padded'}"
+        explanation = ("curve differs from smoothed combined-horizontal / smoothed vertical amplitude "
+                       "spectrum of the tapered zero-padded window")
+        wrong = np.array([not close(amp[:, c], ref[:, c], rtol=RTOL) for c in range(len(fcs))]) & ok_cols
+        if wrong.any() and not (wrong & ~ends).any():
+            key += ":exact-window-end"      # every other centre agrees: the defect is in the treatment of the ends
+            explanation += ("; only centres whose (closed) smoothing window has a DFT bin exactly on one of "
+                            "its ends differ")
+        ctx.violation(key, root, detail=dict(detail, fft_n=n, centres_with_bin_on_window_end=ends.tolist()),
+                      expected=ref.tolist(), observed=amp.tolist(), explanation=explanation)
     if not cfg["fft"].startswith("nopad") or not metamorphic or lengths is not None:
         return      # metamorphic claims on the cheap path, low-deviation cases
     # (iii) metamorphic claims (fresh settings with the same resolved FFT length)
@@ -556,3 +742,53 @@ def describe(tier):     # noqa: F811 - the base description plus what later roun
     d = _describe_base(tier)
     d["rule"] = d["rule"] + " " + 'Further roots: three windows of different length in ONE call (L, L-5, L-2 in three orders) x 9 kinds x FFT requests {nopad, default, nopad_ortho, n16} within one deviation of the default configuration; the reference tapers every window over its own length and pads it to the FFT length.'
     return d
+
+
+_describe_r4 = describe
+
+
+def describe(tier):     # noqa: F811
+    d = _describe_r4(tier)
+    d["rule"] += (
+        " Long-window roots: one window of 32768 / 32769 / 40000 samples x 3 (quick) / 4 (thorough) kinds x FFT "
+        "requests {default, nopad}; and windows of different length in ONE call with at least one longer than "
+        "2**15 samples: every ordered pair of distinct lengths from {500, 32768, 40000} plus the three lengths "
+        "together with the longest first / in the middle / last (quick) or in all six orders (thorough) x the same "
+        "kinds x {default, nopad}; linear_rectangular over 6 bins at three centres off the DFT grid; the reference "
+        "evaluates only the DFT bins that carry kernel weight; oracle (ii) (FFT length after the call >= the LONGEST "
+        "window of the call) and (i). "
+        "Exact-window-end roots: 2 windows with binary-friendly time steps (dt = 1/64, 1/128 s, L = 64: every DFT "
+        "frequency of a power-of-two FFT length is an exact double) x 12 operator/bandwidth pairs (linear_rectangular "
+        "2, 6, 3 bins and 0.5 Hz; linear_triangular; log_rectangular and log_triangular one whole decade each side "
+        "and 0.2; konno_and_ohmachi b=3 (support one whole decade) and b=40; parzen; savitzky_and_golay 5) x 6 kinds "
+        "(quick) / 9 kinds (thorough) x 3 centre-frequency sets on the DFT grid (bins incl. decade pairs 2-20, 4-40; "
+        "midway between bins; quarter-Hz values that are bins of the padded grids only) x FFT requests {nopad, "
+        "default} (thorough: + n65536, Tukey widths {0.1, 0}).  There DFT bins lie EXACTLY on fc -/+ half-width; "
+        "such a bin belongs to the (closed) window - it is compared, not skipped as a knife edge - for the kernels "
+        "whose weight does not vanish at the end (linear_rectangular, log_rectangular, konno_and_ohmachi); a "
+        "violation confined to such centres carries the key suffix ':exact-window-end'.")
+    d["bounds"] = dict(d["bounds"], long_unequal_lengths=list(LONG_UNEQUAL_LENGTHS),
+                       exact_window_end_windows=len(ONGRID_WINDOWS))
+    d["assumptions"] = list(d["assumptions"]) + [
+        "a sample whose distance from the centre equals the half-width EXACTLY (in rational arithmetic on the doubles "
+        "handed over; log kernels: whole-decade half-widths only) is inside the window (ref/kernels.py pins the "
+        "supports as closed, as C02 does); this is applied only where the DFT frequencies themselves are exact "
+        "(n*dt a power of two), on every other grid a tie within 1e-9 stays knife-edge and is not compared",
+        "azimuthal roots are dealt out in parts (configurations i, i+k, ...) for load balance; the set of "
+        "configurations is unchanged"]
+    return d
+
+
+# what the enumeration must have entered for the oracles not to be vacuous
+NONVACUITY = ["validated", "unequal_length_cases", "long_unequal_length_cases", "ongrid_cases",
+              "centres_with_bin_exactly_on_window_end:linear_rectangular",
+              "centres_with_bin_exactly_on_window_end:log_rectangular",
+              "centres_with_bin_exactly_on_window_end:konno_and_ohmachi"]
+
+
+def finalize(ctx, tier):
+    for name in NONVACUITY:
+        if ctx.counters.get(name, 0) == 0 and not ctx.violation_counts:
+            ctx.violation(f"C01:harness:vacuous:{name}", None,
+                          explanation=f"the enumeration never exercised '{name}'; the oracle would be vacuous "
+                                      f"for that part of the quantifier")
